@@ -49,10 +49,22 @@ XSUB = {"Person": ("agent", "person"), "Organization": ("agent", "organization")
         "Quotation": ("derivation", "wasQuotedFrom"), "PrimarySource": ("derivation", "hadPrimarySource")}
 
 
+# flag brebind: inside a bundle the prefixes ex and c change places (the bundle declares them the other
+# way round than the document does), so one spelling means different URIs at the two levels
+SCOPE = {"swap": False}
+_SWAPPED = {"ex": "c", "c": "ex"}
+
+
+def scoped_pfx():
+    if SCOPE["swap"]:
+        return [(_SWAPPED.get(p, p), ns) for p, ns in PFX]
+    return PFX
+
+
 def qname(segs):
     """URI segments -> 'prefix:local' under the generator's own prefix table (longest namespace)."""
     best = None
-    for p, ns in PFX + list(BUILTIN.items()):
+    for p, ns in scoped_pfx() + list(BUILTIN.items()):
         if segs[:len(ns)] == ns and len(segs) > len(ns):
             if best is None or len(ns) > len(best[1]):
                 best = (p, ns)
@@ -139,7 +151,7 @@ def merge_memberships(recs):
 def json_container(recs, fl, voc, prefixes):
     c = {}
     if prefixes:
-        c["prefix"] = dict((p, uri_text(ns)) for p, ns in PFX)
+        c["prefix"] = dict((p, uri_text(ns)) for p, ns in scoped_pfx())
     anon = 0
     if fl.get("member"):
         recs = merge_memberships(recs)
@@ -182,7 +194,12 @@ def render_json(src, fl, voc):
     if src["bundles"]:
         top["bundle"] = {}
         for b in src["bundles"]:
-            top["bundle"][qname(b["id"])] = json_container(b["recs"], fl, voc, bool(fl.get("bprefix")))
+            SCOPE["swap"] = bool(fl.get("brebind"))
+            try:
+                top["bundle"][qname(b["id"])] = json_container(b["recs"], fl, voc,
+                                                               bool(fl.get("bprefix")) or SCOPE["swap"])
+            finally:
+                SCOPE["swap"] = False
     if fl.get("keys") == "reversed":
         top = dict(reversed(list(top.items())))
     text = json.dumps(top, indent=1 if fl.get("indent") else None)
@@ -262,9 +279,9 @@ def xml_record(r, fl, voc):
             p, l = tag.split(":", 1)
             probe = xml_value("zz:zz", a["v"], fl, voc)
             cands = ["loc"] if fl["localns"] == "new" else \
-                [x for x in ("c", "d", "exb") if x != p and (x + ":") not in probe]
-            lp = cands[0]
-            ns = [x for x in PFX if x[0] == p][0][1]
+                [x for x in ("c", "d", "exb", "ex") if x != p and (x + ":") not in probe]
+            lp = (cands or ["loc"])[0]
+            ns = [x for x in scoped_pfx() if x[0] == p][0][1]
             el = xml_value("%s:%s" % (lp, l), a["v"], fl, voc)
             out.append(el.replace("<%s:%s" % (lp, l), '<%s:%s xmlns:%s="%s"' % (lp, l, lp, uri_text(ns)), 1))
             continue
@@ -292,10 +309,20 @@ def render_xml(src, fl, voc):
         parts.append("<!-- a comment -->")
     parts += [xml_record(r, fl, voc) for r in src["recs"]]
     for b in src["bundles"]:
-        bdecl = (" " + decl) if fl.get("bprefix") else ""
-        parts.append('<prov:bundleContent prov:id="%s"%s>' % (qname(b["id"]), bdecl))
-        parts += [xml_record(r, fl, voc) for r in b["recs"]]
-        parts.append("</prov:bundleContent>")
+        SCOPE["swap"] = bool(fl.get("brebind"))
+        try:
+            bdecl = (" " + " ".join('xmlns:%s="%s"' % (p, uri_text(ns)) for p, ns in scoped_pfx())) \
+                if (fl.get("bprefix") or SCOPE["swap"]) else ""
+            belems = ['<prov:bundleContent prov:id="%s"%s>' % (qname(b["id"]), bdecl)]
+            belems += [xml_record(r, fl, voc) for r in b["recs"]]
+            belems.append("</prov:bundleContent>")
+        finally:
+            SCOPE["swap"] = False
+        # flag bundlefirst: the bundles precede the document-level records
+        if fl.get("bundlefirst"):
+            parts[1:1] = belems
+        else:
+            parts += belems
     parts.append("</prov:document>")
     sep = "\n  " if fl.get("indent") else ""
     text = '<?xml version="1.0" encoding="UTF-8"?>\n' + sep.join(parts)
